@@ -118,9 +118,9 @@ func checkC08(p *Prog, r *Report) {
 		} else {
 			_, fld, okf := fieldOf(preLk.Index)
 			if !okf || fld != "PkgPath" {
-				ok, why = false, "pre-visit looks up "+exprKey(preLk.Index)+", expected the visited package's PkgPath"
+				ok, why = false, "pre-visit looks up "+sk(preLk.Index)+", expected the visited package's PkgPath"
 			}
-			okKey := exprKey(preLk) + "#1"
+			okKey := sk(preLk) + "#1"
 			rm := p.Rels(pre)
 			nRet := 0
 			p.instrs(pre, func(b *ssa.BasicBlock, i int, in ssa.Instruction) {
@@ -131,7 +131,7 @@ func checkC08(p *Prog, r *Report) {
 				nRet++
 				c, isC := ret.Results[0].(*ssa.Const)
 				if !isC {
-					ok, why = false, "pre-visit returns a computed value ("+exprKey(ret.Results[0])+"): whether the walk descends must depend only on the FFI lookup"
+					ok, why = false, "pre-visit returns a computed value ("+sk(ret.Results[0])+"): whether the walk descends must depend only on the FFI lookup"
 					return
 				}
 				rs := p.RelsAt(rm, ret)
@@ -157,7 +157,7 @@ func checkC08(p *Prog, r *Report) {
 		} else {
 			_, fld, okf := fieldOf(postLk.Index)
 			if !okf || fld != "PkgPath" {
-				ok, why = false, "post-visit looks up "+exprKey(postLk.Index)
+				ok, why = false, "post-visit looks up "+sk(postLk.Index)
 			}
 			rm := p.Rels(post)
 			nUpd := 0
@@ -165,7 +165,7 @@ func checkC08(p *Prog, r *Report) {
 				if mu, isMu := in.(*ssa.MapUpdate); isMu {
 					nUpd++
 					rs := p.RelsAt(rm, mu)
-					if !rs[exprKey(postLk)+"#1 == true"] {
+					if !rs[sk(postLk)+"#1 == true"] {
 						ok, why = false, "an FFI is recorded without the lookup having succeeded"
 					}
 					// recorded value is the looked-up FFI name
@@ -186,7 +186,7 @@ func checkC08(p *Prog, r *Report) {
 		var seenKey string
 		p.instrs(gf, func(b *ssa.BasicBlock, i int, in ssa.Instruction) {
 			if rg, ok := in.(*ssa.Range); ok {
-				seenKey = exprKey(rg.X)
+				seenKey = sk(rg.X)
 			}
 		})
 		okRefuse, okNone, okOne := false, false, false
@@ -230,8 +230,8 @@ func checkC08(p *Prog, r *Report) {
 		r.Check("R08b", "two different FFIs are refused", gf.Pos(), okRefuse, "no refusing exit under the fact len(seen) > 1")
 		r.Check("R08b", "single FFI or none is returned", gf.Pos(), okNone && okOne, fmt.Sprintf("returns \"none\" when nothing was seen=%v; returns the single recorded FFI under len <= 1=%v", okNone, okOne))
 		// walk starts at the package itself
-		okRoot := exprKey(visit.Call.Args[0]) == "["+gf.Params[0].Name()+"]"
-		r.Check("R08b", "walk starts from the translated package", instrPos(visit), okRoot, "roots are "+exprKey(visit.Call.Args[0]))
+		okRoot := sk(visit.Call.Args[0]) == "["+gf.Params[0].Name()+"]"
+		r.Check("R08b", "walk starts from the translated package", instrPos(visit), okRoot, "roots are "+sk(visit.Call.Args[0]))
 	}
 	// --- R08a tables
 	imp := p.Func(Mod, "Ctx.imports")
@@ -335,7 +335,7 @@ func c08Header(p *Prog, r *Report) {
 			okHdr := false
 			if c, ok := hdr.(*ssa.Call); ok && calleeName(c) == "fmt.Sprintf" {
 				fs, _ := constString(c.Call.Args[0])
-				if strings.Contains(fs, "ffi.%s_prelude") && exprKey(c.Call.Args[1]) == "["+par+"]" {
+				if strings.Contains(fs, "ffi.%s_prelude") && sk(c.Call.Args[1]) == "["+par+"]" {
 					okHdr = true
 				}
 			}
@@ -350,7 +350,7 @@ func c08Header(p *Prog, r *Report) {
 	if tpk != nil {
 		p.instrs(tpk, func(b *ssa.BasicBlock, i int, in ssa.Instruction) {
 			if c, ok := in.(*ssa.Call); ok && calleeOf(&c.Call) == f {
-				if strings.HasSuffix(exprKey(c.Call.Args[0]), ".Ffi") {
+				if strings.HasSuffix(sk(c.Call.Args[0]), ".Ffi") {
 					okWire = true
 				}
 			}
@@ -531,11 +531,40 @@ func c08PathMapping(p *Prog, r *Report) {
 		onlyThrough(f, f.Params[0], "output file path goes through pathToCoqPath")
 		okV := false
 		p.instrs(f, func(b *ssa.BasicBlock, i int, in ssa.Instruction) {
-			if ret, ok := in.(*ssa.Return); ok {
-				k := exprKey(ret.Results[0])
-				if strings.Contains(k, `+ ".v"`) && strings.Contains(k, "path.Base(") && strings.Contains(k, "path.Dir(") {
-					okV = true
+			ret, ok := in.(*ssa.Return)
+			if !ok {
+				return
+			}
+			// collect callees and constants in the backward closure of the result (through call arguments)
+			callees := map[string]bool{}
+			consts := map[string]bool{}
+			seen := map[ssa.Value]bool{}
+			var walk func(v ssa.Value)
+			walk = func(v ssa.Value) {
+				if v == nil || seen[v] {
+					return
 				}
+				seen[v] = true
+				if c, ok := v.(*ssa.Call); ok {
+					callees[calleeName(c)] = true
+				}
+				if s, ok := constString(v); ok {
+					consts[s] = true
+				}
+				for _, o := range flowOperands(v) {
+					if o != v {
+						walk(o)
+					}
+					if c, ok := o.(*ssa.Call); ok {
+						for _, a := range c.Call.Args {
+							walk(a)
+						}
+					}
+				}
+			}
+			walk(ret.Results[0])
+			if callees["path.Dir"] && callees["path.Base"] && consts[".v"] && callees[coqPkg+".pathToCoqPath"] {
+				okV = true
 			}
 		})
 		r.Check("R08d", "output file is <dir>/<base>.v of the mapped path", f.Pos(), okV, "")
@@ -570,7 +599,7 @@ func c08Imports(p *Prog, r *Report, imp *ssa.Function, builtinG *ssa.Global, gf 
 		}
 		nApp++
 		rs := p.RelsAt(rm, c)
-		if lk == nil || !rs[exprKey(lk)+" == false"] {
+		if lk == nil || !rs[sk(lk)+" == false"] {
 			okGuard = false
 			why = fmt.Sprintf("an ImportDecl is appended without the fact that the path is not builtin; facts %v", relList(rs))
 		}
@@ -616,8 +645,8 @@ func c08Imports(p *Prog, r *Report, imp *ssa.Function, builtinG *ssa.Global, gf 
 	r.Check("R08e", "trusted_ prefix selects Trusted", imp.Pos(), okTrust, "Trusted must be true exactly under the HasPrefix(pkgName, \"trusted_\") fact")
 	// key looked up is the unquoted import path of the spec
 	if lk != nil {
-		okKey := strings.Contains(exprKey(lk.Index), ".Path")
-		r.Check("R08e", "builtin test uses the spec's import path", instrPos(lk), okKey, "looked-up key is "+exprKey(lk.Index))
+		okKey := strings.Contains(sk(lk.Index), ".Path")
+		r.Check("R08e", "builtin test uses the spec's import path", instrPos(lk), okKey, "looked-up key is "+sk(lk.Index))
 	}
 	// renamed imports rejected: the ImportSpec.Name field is tested and leads to a reporter
 	rejected := false
